@@ -54,6 +54,54 @@ CHECKS = {
              "not a specification verdict.",
         technique="TLA+ spec + TLC exhaustive; impl->spec trace validation with TLC as oracle",
         design="6/C17"),
+    "C08": dict(
+        level="model_checking",
+        text="Sig.tla (ideal signature functionality, identity life cycle generated/imported/seed/path, verdict functions of the raw, "
+             "own-key, delegated and threshold entry points) is model-checked exhaustively over every key/message/signature token "
+             "combination; the two pinned-tree deviations (independently expanded key halves, count-only threshold) must give "
+             "counterexamples. Executions of the shipping-profile build (debug assertions off, real ML-DSA-65) are recorded - every "
+             "sign/verify call of every entry point with genuine objects, single-bit flips of message/signature/key and all ordered "
+             "identity pairs - and judged by Trace_Sig.tla with the shared rules of SigRules.tla.",
+        note="TLC does not model ML-DSA: unforgeability under bit flips is observed on the real code (all bits of short messages, "
+             "2 000 (quick) / all (thorough) positions of signature and key per identity, aggregated per object), the specification "
+             "supplies the ideal functionality and the entry-point case analysis. Trusted: token interning, TLC, Json module.",
+        technique="TLA+ spec + TLC exhaustive; impl->spec trace validation with TLC as oracle",
+        design="6/C08"),
+    "C09": dict(
+        level="model_checking",
+        text="PeerRecord.tla (records as field tokens, `signed` set, verdict cache as bounded map with nondeterministic eviction) is "
+             "model-checked exhaustively over all sign/present/clear histories for capacities 1..2(3); the two pinned-tree deviations "
+             "(cache keyed by (uid,seq,ts), user id not bound to key) must give counterexamples. Recorded histories of real "
+             "PeerDHTRecords / SignatureCaches (real ML-DSA keys, field-level and byte-level mutations, forged records sharing "
+             "(uid,seq,ts), capacities 1..8,16,64, every constructor boundary) are judged by Trace_PeerRecord.tla.",
+        note="Trusted: interning of field byte strings, pairing of secret and public keys, UserId::from_public_key as definition of the "
+             "derived id, TLC, Json module. Not judged: record version byte, name None vs Some(\"\").",
+        technique="TLA+ spec + TLC exhaustive; impl->spec trace validation with TLC as oracle",
+        design="6/C09"),
+    "C18": dict(
+        level="model_checking",
+        text="KeyStore.tla (store file, tmp file, plaintext cache, pending write between tmp and rename, crash, corruption, password "
+             "change) is model-checked exhaustively for histories of 6 (quick) / 9 (thorough) operations; the pinned-tree deviation "
+             "(cache consulted before the password) and an in-place-write variant must give counterexamples. Recorded histories of the "
+             "real EncryptedKeyStorageManager (right/wrong/former passwords, clear-cache, reopen, every single-byte alteration of the "
+             "file, crash images of store and change-password) are judged by Trace_KeyStore.tla.",
+        note="Crash images are composed by the harness from the real old/new file bytes in the order of writes of encrypt_and_store "
+             "(hook H4 not in the tree yet). Reading: an altered byte may still yield the SAME material. Trusted: seed interning, TLC, Json.",
+        technique="TLA+ spec + TLC exhaustive; impl->spec trace validation with TLC as oracle",
+        design="6/C18"),
+    "C19": dict(
+        level="model_checking",
+        text="Address.tla (textual forms, producers, consumers, wiring of the code, an address travelling along the wiring) is "
+             "model-checked exhaustively (tiny); three pinned-tree deviations must give counterexamples. The real codecs are observed: "
+             "four-word, Display/FromStr, serde and bootstrap round trips over all boundary octet/port combinations, all 65 536 ports "
+             "of 3 (8) addresses, 1.1 M (22 M) seeded samples, IPv6 of every class, separator/case variants, malformed strings; every "
+             "producer's actual string is classified and every reachable consumer is probed with every form; Trace_Address.tla judges "
+             "RoundTrip / Variant / Malformed and Interop over the wiring table with the observed Emits/Accepts.",
+        note="The 2^48 space is sampled (boundaries exhaustively). multiaddr_from_address / dial_candidate are private: their accepted "
+             "forms are taken from reading. add_node is probed through its observable gate behaviour. Trusted: equality projection, "
+             "form classifier/renderer, TLC, Json module.",
+        technique="TLA+ spec + TLC exhaustive; impl->spec trace validation with TLC as oracle",
+        design="6/C19"),
 }
 
 CHECKS["C06"] = dict(
@@ -104,6 +152,54 @@ CHECKS["C11"] = dict(
          "than 400 edges also the driver's dangling/closedness facts (recomputed by TLC otherwise).",
     technique="TLA+ spec + TLC exhaustive; impl->spec trace validation with TLC as oracle",
     design="6/C11")
+
+CHECKS.update({
+    "C12": dict(
+        level="model_checking",
+        text="Counter.tla (marks per peer, batches, Call/Lin/Ret with every linearisation of 2-3 tasks, sync and reload anywhere) is "
+             "model-checked exhaustively (AtMostOnce, InOrder, Classified, PersistedBelow, MarkMoves; the two-step, monotonic-only and "
+             "'<' replay variants must give counterexamples); sequential histories of the real MonotonicCounterSystem (validate_sequence, "
+             "batch_update with repeats / mixed peers / stale and future timestamps, u64 extremes, >1000 accepted numbers, sync + reopen "
+             "through the public API, files preloaded near u64::MAX) are judged event by event by Trace_Counter.tla, and concurrent "
+             "histories (2-6 tasks on a multi-thread runtime, call/return intervals ordered by a global ticket) by "
+             "Trace_CounterConc.tla, where TLC searches the linearisation points.",
+        note="Timestamp thresholds (60 s / 1 h) are not part of the property: timestamps between 'clearly current' and 'clearly "
+             "stale/ahead' admit both readings. After a reload the mark may lie anywhere in [persisted, last] (both readings of "
+             "'at most once over the whole life'). The state last = u64::MAX is entered only for the very same (number, hash).",
+        technique="TLA+ spec + TLC exhaustive; impl->spec trace validation with TLC as oracle (violation collection + linearisation search)",
+        design="6/C12"),
+    "C13": dict(
+        level="model_checking",
+        text="Admission.tla (bag of admitted candidates vs per-level counters; add, remove, failed insert, evict, refresh, "
+             "set-network-size; 32 candidate kinds) is model-checked exhaustively for CapAtAdmission, AdmitWhenBelow and SlotAccounting; "
+             "five AsImplemented flags (IPv4 ASN not halved, increment before bucket insert, no decrement on eviction, refresh keeps old "
+             "slots, IPv4 mapped into one /64) must give counterexamples. Histories of the real IPDiversityEnforcer (default, testnet, "
+             "permissive, random small caps; arbitrary ASN / hosting / VPN attributes; stats after every step), of DhtCoreEngine "
+             "add_node / evict_node / handle_node_failure, of BootstrapManager::add_peer and of a real DhtNetworkManager accepting inbound "
+             "peers over the in-memory transport are judged by Trace_Admission.tla with AdmissionRules!Limit / LimitLo.",
+        note="Two readings of the IPv4 per-address cap are accepted (network-size rule alone for the upper bound, additionally bounded by "
+             "max_nodes_per_ipv4_32 for the must-admit bound). Network sizes are kept away from floor(size*fraction) boundaries (f64 "
+             "rounding is not modelled). Refusals by other gates (full bucket, region cap, validator, join rate limit) are excused but "
+             "must consume no slot. The engine is judged with the library's default configuration (its enforcer is private).",
+        technique="TLA+ spec + TLC exhaustive; impl->spec trace validation with TLC as oracle",
+        design="6/C13"),
+    "C14": dict(
+        level="model_checking",
+        text="RateLimit.tla (token bucket + fixed window in discrete time, shared bucket then key bucket, every arrival sequence over "
+             "the horizon and every burst/max pair) is model-checked exhaustively for BurstPlusRefill, WindowMax, KeyIsolation, "
+             "OthersUntouched and DenialNeverIncreases; three wrong variants (refill from the window start, no cap at burst, shared "
+             "bucket) must give counterexamples. Request histories of the real rate_limit::Engine, validation::RateLimiter::check_ip "
+             "and JoinRateLimiter::check_join_allowed (random and default configurations, IPv4/IPv6 addresses sharing /24, /48, /64 "
+             "prefixes, bursts / spins / sleeps across window boundaries, single-threaded and from 8 OS threads) are judged by "
+             "Trace_RateLimit.tla: for every admission, every suffix of the admission list of each bucket it draws on must satisfy "
+             "count <= burst + span*max/window and (span <= window => count <= 2*max), span measured as the widest the tick bands allow.",
+        note="Upper bounds only (sound under timing noise); the per-window maximum is judged in its weakest reading (fixed windows of "
+             "any alignment: 2*max per window length). The only lower bound, KeyIsolation (a request whose buckets have each seen fewer "
+             "than min(burst,max) attempts must pass), is time-free and applied to single-threaded segments only. The listener call site "
+             "in transport_handle.rs is covered at the check_ip call only. The 100k-key LRU bound is not driven.",
+        technique="TLA+ spec + TLC exhaustive; impl->spec trace validation with TLC as oracle",
+        design="6/C14"),
+})
 
 NOT_YET = {}
 
